@@ -492,6 +492,26 @@ fn faults_for(mode: Mode, tier: Tier, seed: u64, img: &ImageInfo) -> Vec<Fault> 
             };
             out.push(Fault::Multi(vec![a, bb]));
         }
+        // (C05 / C06) a whole embedded pack overwritten by the bytes of a sibling pack of the same
+        // kind that is not larger (a misdirected write of pack size): what the container stores
+        // under one uuid is now another valid pack
+        if mode != Mode::C04 {
+            let inner: Vec<&PackSpan> = img.spans[fi].iter().skip(1).filter(|s| s.kind == b'c').collect();
+            if img.spans[fi].first().map(|s| s.kind) == Some(b'C') {
+                for a in &inner {
+                    for b in &inner {
+                        if a.start != b.start && b.size <= a.size {
+                            out.push(Fault::CopyRange {
+                                file: fi,
+                                src: b.start,
+                                dst: a.start,
+                                len: b.size,
+                            });
+                        }
+                    }
+                }
+            }
+        }
         // (C05 / C06) two sites in one pack: a bit of the 64-byte header block (its CRC then fails)
         // together with a bit of the header's mirror image at the very end of the pack - whatever
         // falls back on the tail copy must verify that copy too
@@ -648,6 +668,27 @@ fn observe_checks(entry: &Path, case_dir: &Path, names: &[String], spans: &[Vec<
         }
         Err(e) => format!("OpenErr:{}", dump::err_class(&e)),
     };
+    // and to a container whose process has no file descriptor left when the check runs (opening
+    // a pack file then fails with EMFILE): the answer may be an error, not "all is well"
+    let container_no_fd = match jubako::reader::Container::new(entry) {
+        Ok(c) => {
+            let open_now = std::fs::read_dir("/proc/self/fd").map(|d| d.count() as u64).unwrap_or(64);
+            let r = unsafe {
+                let mut old: libc::rlimit = std::mem::zeroed();
+                libc::getrlimit(libc::RLIMIT_NOFILE, &mut old);
+                let new = libc::rlimit {
+                    rlim_cur: open_now.saturating_sub(1).max(3),
+                    rlim_max: old.rlim_max,
+                };
+                libc::setrlimit(libc::RLIMIT_NOFILE, &new);
+                let r = c.check();
+                libc::setrlimit(libc::RLIMIT_NOFILE, &old);
+                r
+            };
+            check_str(r)
+        }
+        Err(e) => format!("OpenErr:{}", dump::err_class(&e)),
+    };
     let mut file_checks = BTreeMap::new();
     let mut pack_checks = BTreeMap::new();
     for &fi in touched {
@@ -686,7 +727,7 @@ fn observe_checks(entry: &Path, case_dir: &Path, names: &[String], spans: &[Vec<
             pack_checks.insert(format!("{}#{}", names[fi], si), r);
         }
     }
-    json!({"container": container, "container_after_use": container_used, "files": file_checks, "packs": pack_checks})
+    json!({"container": container, "container_after_use": container_used, "container_without_descriptors": container_no_fd, "files": file_checks, "packs": pack_checks})
 }
 
 fn fault_hits_manifest_slot(fault: &Fault, spans: &[Vec<PackSpan>]) -> bool {
@@ -876,8 +917,15 @@ pub fn child_main(args: &Args) -> ! {
                 } else {
                     Dump(pristine_dump.0.iter().filter(|(p, _)| !p.starts_with("after_rewrite/")).cloned().collect())
                 };
-                let removed = fault.encode().contains("remove:");
-                let diffs = dump::structural_diff_opts(&reference, &d, removed);
+                // a whole pack overwritten by a sibling pack (sector copies are exactly 512 bytes long)
+                let pack_copy = matches!(fault, Fault::CopyRange { len, .. } if *len != 512);
+                let removed = fault.encode().contains("remove:") || pack_copy;
+                let mut diffs = dump::structural_diff_opts(&reference, &d, removed);
+                if pack_copy {
+                    // the harness's own direct look at the overwritten span finds the sibling pack,
+                    // a valid pack in its own right: only what the container says is judged
+                    diffs.retain(|x| !x.starts_with("direct["));
+                }
                 let nerr = d.0.iter().filter(|(_, l)| l.is_err()).count();
                 let changed = d != reference;
                 json!({
@@ -1059,6 +1107,9 @@ fn c04_violation(rec: &Value, exempt: bool) -> Option<String> {
     let mut trues = vec![];
     if obs["container"] == "true" {
         trues.push("Container::check".to_string());
+    }
+    if obs["container_without_descriptors"] == "true" {
+        trues.push("Container::check(no file descriptor left: pack files cannot be opened)".to_string());
     }
     if obs["container_after_use"] == "true" {
         trues.push("Container::check(after packs and contents were read through it)".to_string());
